@@ -5,6 +5,8 @@ package static
 import (
 	"context"
 	"fmt"
+	"os"
+	"path/filepath"
 	"sort"
 	"strconv"
 	"strings"
@@ -451,6 +453,7 @@ func TestVerifC04(t *testing.T) {
 		}
 	}
 	baseline := map[string][3]any{}
+	lexWritten := 0
 	for _, j := range jobs {
 		// the surroundings: mostly valid; thorough runs every surrounding for every job
 		sur := j.sur
@@ -482,6 +485,15 @@ func TestVerifC04(t *testing.T) {
 			post = func(objs []client.Object) { leaf.post(objs, hostile) }
 		}
 		confs, jsonMarker, conds := c04Run(c, e, post)
+		// the texts of the first hostile runs go to the second opinion on the tokenizer (part TestVerifLexCross04)
+		if lexWritten < out.Count(60, 600) {
+			dir := filepath.Join(os.Getenv("VERIF_OUT"), "lexfiles")
+			_ = os.MkdirAll(dir, 0o755)
+			for _, cf := range confs {
+				_ = os.WriteFile(filepath.Join(dir, fmt.Sprintf("%04d_%s", lexWritten, strings.ReplaceAll(strings.TrimPrefix(cf[0], "/"), "/", "_"))), []byte(cf[1]), 0o644)
+			}
+			lexWritten++
+		}
 		bconfs := bl[0].([][2]string)
 		reported := strings.Join(conds, "\n") != strings.Join(bl[1].([]string), "\n")
 		dollar := strings.Contains(j.payload, "$")
